@@ -131,7 +131,15 @@ type compModel struct {
 	obs    []compOb
 	inlinedOnly []string // helper methods verified only where they are called
 	recvObjs map[*types.Var]bool // the receiver variables of the methods of type compiler
+	loopTrips map[string]loopTrip // loop id -> its trip count and the number of distinct iteration kinds
 	recs   []emitRec // every emission of a known opcode, with what its path knows
+}
+
+// loopTrip: the iterations of a loop whose body has several distinct effects are counted by one atom per kind of
+// iteration; together they make up the trip count.
+type loopTrip struct {
+	trip Lin
+	n    int
 }
 
 // emitRec: one emission of an opcode on one path of the walk: the operands it was given and the facts and node types
@@ -478,6 +486,36 @@ func (m *compModel) opName(v int64) string {
 
 // normalise uses the path facts and declared assumptions to pin atoms to constants / equalities.
 func (m *compModel) normalise(d Lin, p *cState) Lin {
+	r := m.normalise0(d, p)
+	if r.IsZero() {
+		return r
+	}
+	// second attempt: the kinds of iteration of one loop add up to its trip count - eliminate one kind's atom (each in
+	// turn) and try again
+	for id, lt := range m.loopTrips {
+		if lt.n < 2 {
+			continue
+		}
+		for elim := 0; elim < lt.n; elim++ {
+			atom := fmt.Sprintf("iter(%s:%d)", id, elim)
+			if k, ok := d.T[atom]; !ok || k == 0 {
+				continue
+			}
+			repl := lt.trip
+			for i := 0; i < lt.n; i++ {
+				if i != elim {
+					repl = repl.Sub(linAtom(fmt.Sprintf("iter(%s:%d)", id, i)))
+				}
+			}
+			if r2 := m.normalise0(d.Subst(map[string]Lin{atom: repl}, nil), p); r2.IsZero() {
+				return r2
+			}
+		}
+	}
+	return r
+}
+
+func (m *compModel) normalise0(d Lin, p *cState) Lin {
 	if d.IsZero() {
 		return d
 	}
@@ -535,6 +573,25 @@ func (m *compModel) normalise(d Lin, p *cState) Lin {
 		return d
 	}
 	// A1: sigma(scalar args) - NumScalars(f) with the path fact sigma >= NumScalars
+	// (both compared after eliminating the first kind of iteration of every loop through the trip-count identity, so
+	// that a fact stated about the array arguments - len(args) - arrays - speaks about the scalar ones)
+	canon := func(x Lin) Lin {
+		for id, lt := range m.loopTrips {
+			if lt.n < 2 {
+				continue
+			}
+			atom := fmt.Sprintf("iter(%s:0)", id)
+			if k, ok := x.T[atom]; ok && k != 0 {
+				repl := lt.trip
+				for i := 1; i < lt.n; i++ {
+					repl = repl.Sub(linAtom(fmt.Sprintf("iter(%s:%d)", id, i)))
+				}
+				x = x.Subst(map[string]Lin{atom: repl}, nil)
+			}
+		}
+		return x
+	}
+	d = canon(d)
 	if len(d.T) == 2 && d.C == 0 {
 		var sig, ns string
 		for a, k := range d.T {
@@ -547,7 +604,7 @@ func (m *compModel) normalise(d Lin, p *cState) Lin {
 		}
 		if sig != "" && ns != "" {
 			for _, l := range p.lits {
-				if l.Rel == "lin>=0" && l.L != nil && l.L.Eq(d) {
+				if l.Rel == "lin>=0" && l.L != nil && (l.L.Eq(d) || canon(*l.L).Eq(d)) {
 					return linC(0) // path fact d >= 0; with A1 (scalar args <= NumScalars) d <= 0
 				}
 			}
@@ -1398,10 +1455,19 @@ func (w *cWalker) loopBody(body *ast.BlockStmt, st *cState, trip Lin, tag string
 		tr   string
 	}
 	var effs []pathEff
+	perIter := 0 // operands of a pending variadic tail emitted per iteration
 	for _, r := range res {
 		if r.retVal != nil || (r.returned && !(len(r.trace) > 0 && (r.trace[len(r.trace)-1] == "continue" || r.trace[len(r.trace)-1] == "break"))) {
 			w.m.issue("%s: return inside an emitting loop at %s", w.method, w.m.c.relPos(body.Pos()))
 			continue
+		}
+		if r.pending != nil && st.pending != nil && !r.bottom && len(r.frameHs) == 0 {
+			// the loop emits the operands of a pending variadic tail, so many per iteration
+			d := st.pending.Sub(*r.pending)
+			if d.IsConst() && d.C > 0 && (perIter == 0 || perIter == d.C) {
+				perIter = d.C
+				r.pending = nil
+			}
 		}
 		if r.bottom || r.pending != nil || len(r.frameHs) > 0 {
 			w.m.issue("%s: jump marks or pending operands cross loop iterations at %s", w.method, w.m.c.relPos(body.Pos()))
@@ -1444,6 +1510,15 @@ func (w *cWalker) loopBody(body *ast.BlockStmt, st *cState, trip Lin, tag string
 		}
 	}
 	st.trace = append(st.trace, tag)
+	if perIter > 0 && st.pending != nil {
+		rest := st.pending.Sub(mulLin(linC(perIter), trip))
+		if rest.IsZero() {
+			st.pending = nil
+			w.m.obs = append(w.m.obs, compOb{key: fmt.Sprintf("arity:%s:variadic-tail:%s", w.method, strings.Join(st.trace, ">")), pos: body.Pos(), ok: true, detail: fmt.Sprintf("variadic operand tail emitted in full by the loop (%d per iteration, %s iterations)", perIter, trip.String())})
+		} else {
+			st.pending = &rest
+		}
+	}
 	if len(uniq) == 1 {
 		u := uniq[0]
 		st.h = st.h.Add(mulLin(u.dh, trip))
@@ -1455,6 +1530,10 @@ func (w *cWalker) loopBody(body *ast.BlockStmt, st *cState, trip Lin, tag string
 		return []*cState{st}
 	}
 	w.m.kctr++
+	if w.m.loopTrips == nil {
+		w.m.loopTrips = map[string]loopTrip{}
+	}
+	w.m.loopTrips[fmt.Sprintf("%s#%d", w.method, w.m.kctr)] = loopTrip{trip: trip, n: len(uniq)}
 	for i, u := range uniq {
 		it := fmt.Sprintf("iter(%s#%d:%d)", w.method, w.m.kctr, i)
 		st.h = st.h.Add(mulLin(u.dh, linAtom(it)))
@@ -2402,7 +2481,7 @@ func (w *cWalker) emit(call *ast.CallExpr, args []ast.Expr, st *cState, via stri
 		opv := a.vs[0]
 		operands := a.vs[1:]
 		m.sites++
-		if a.st.pending != nil {
+		if a.st.pending != nil && opv.k == cvConst {
 			m.obs = append(m.obs, compOb{key: fmt.Sprintf("arity:%s:pending:%s", w.method, strings.Join(a.st.trace, ">")), pos: call.Pos(), detail: "an opcode is emitted while the variadic operands of the previous one are still missing"})
 			a.st.pending = nil
 		}
@@ -2418,6 +2497,24 @@ func (w *cWalker) emit(call *ast.CallExpr, args []ast.Expr, st *cState, via stri
 			continue
 		case cvConst:
 		default:
+			if a.st.pending != nil && via == "add" {
+				// operands of the variadic tail announced by the previous opcode, emitted a few at a time
+				// (`for _, a := range arrayArgs { c.add(a.scope, a.index) }`)
+				m.sites--
+				rest := a.st.pending.Sub(linC(len(a.vs)))
+				key := fmt.Sprintf("arity:%s:variadic-tail:%s", w.method, strings.Join(a.st.trace, ">"))
+				if rest.IsZero() {
+					a.st.pending = nil
+					m.obs = append(m.obs, compOb{key: key, pos: call.Pos(), ok: true, detail: "variadic operand tail emitted in full"})
+				} else if rest.IsConst() && rest.C < 0 {
+					m.obs = append(m.obs, compOb{key: key, pos: call.Pos(), detail: fmt.Sprintf("more raw operands emitted than the %s the VM consumes", a.st.pending)})
+					a.st.pending = nil
+				} else {
+					a.st.pending = &rest
+				}
+				out = append(out, cRes{a.st, cVal{k: cvOpaque}})
+				continue
+			}
 			m.obs = append(m.obs, compOb{key: fmt.Sprintf("emit:%s:nonconst:%s", w.method, strings.Join(a.st.trace, ">")), pos: call.Pos(), undec: true, detail: "emitted opcode is not a known constant on this path"})
 			out = append(out, cRes{a.st, cVal{k: cvOpaque}})
 			continue
